@@ -319,7 +319,8 @@ def _vectorised_scatter(rep, k, I, X, Y, idx, val, op, txt, where, data, mask, f
               "data is stored at %s" % nf(idx, 120), where)
     rep.ok("M4.scatter-order", k.fq + ": loops run over the whole mask", "nonzero() scans the whole tested array")
     # k-th active cell receives data[..., k]: the value is data itself or its leading len(xs) columns, in order
-    cnt_forms = [Rat.atom(Fn("len", (X,))), Rat.atom(Fn("len", (Y,))), Rat.atom(Fn("count_nonzero", (w.args[0],))),
+    cnt_forms = [Rat.atom(Fn("len", (X,))), Rat.atom(Fn("len", (Y,))), Rat.atom(Fn("shape", (X, 0))), Rat.atom(Fn("shape", (Y, 0))),
+                 Rat.atom(Fn("count_nonzero", (w.args[0],))),
                  Rat.atom(Fn("sum", (w.args[0], None)))]
     good = same_value(val, data)
     va = val.single_atom() if isinstance(val, Rat) else None
@@ -363,7 +364,8 @@ def _filtered_enumeration_scatter(rep, k, X, Y, idx, val, op, where, data, mask,
               "the kept cells are those where %s (x) / %s (y)" % (nf(xa.args[1], 100), nf(ya.args[1], 100)), where)
     rep.check(same_value(idx[:-2], (full, full)) and op == "=", "M4.scatter-order", k.fq + ": stored at [:, :, x, y]",
               "data is stored at %s" % nf(idx, 120), where)
-    cnt_forms = [Rat.atom(Fn("len", (X,))), Rat.atom(Fn("len", (Y,))), Rat.atom(Fn("count_nonzero", (xa.args[1],))),
+    cnt_forms = [Rat.atom(Fn("len", (X,))), Rat.atom(Fn("len", (Y,))), Rat.atom(Fn("shape", (X, 0))), Rat.atom(Fn("shape", (Y, 0))),
+                 Rat.atom(Fn("count_nonzero", (xa.args[1],))),
                  Rat.atom(Fn("sum", (xa.args[1], None)))]
     good = same_value(val, data)
     va = val.single_atom() if isinstance(val, Rat) else None
@@ -396,6 +398,8 @@ def _active_guard(k, st_node, I, X, Y, mask):
 
     def truth_of(test, positive):
         """does `test` being `positive` mean mask[X, Y] == 1 ?"""
+        if isinstance(test, ast.UnaryOp) and isinstance(test.op, ast.Not):
+            return truth_of(test.operand, not positive)
         if not isinstance(test, ast.Compare) or len(test.ops) != 1:
             if isinstance(test, ast.Subscript):
                 return _is_mask_at(test) and positive
@@ -403,6 +407,12 @@ def _active_guard(k, st_node, I, X, Y, mask):
         l, r = test.left, test.comparators[0]
         if isinstance(r, ast.Subscript) and not isinstance(l, ast.Subscript):
             l, r = r, l
+        if isinstance(r, ast.Name):
+            # a module-level named constant (`_VALID_SUBAP = 1`)
+            from ..common import get_index as _gi
+            b_ = _gi(None).namespace(k.module.name).get(r.id) if r.id not in (k.params + k.kwonly) else None
+            if b_ is not None and b_.kind == "value" and isinstance(b_.target, ast.Constant):
+                r = b_.target
         if not (_is_mask_at(l) and isinstance(r, ast.Constant)):
             return False
         if isinstance(test.ops[0], ast.Eq) and r.value == 1:
